@@ -95,6 +95,10 @@ func c16(c *Ctx) (*report.Result, error) {
 	checkInterceptorOrder(c, res, "O16.3")
 	checkNoBypassHeader(c, res, "O16.4")
 	checkListNamespaces(c, res, "O16.5")
+	res.RuleDoc["O16.9"] = "the allow-list the access check matches against is the policy's: makeServerOptions hands NewAccessControlInterceptor aclPolicy.AllowedNamespaces itself, or the result of a helper that returns nothing but elements of it - a list extended with other names (translated aliases, defaults) admits requests for namespaces the policy does not list, e.g. a bypass-header request that names the alias (same analysis as O15.2)"
+	if f := resolve(c, res, "O16.9", anchor{"proxy", "", "makeServerOptions"}); f != nil {
+		checkACLBuiltFromPolicy(c, res, "O16.9", f)
+	}
 
 	// O16.6 streaming request roots have no namespace site
 	m, err := loadAPIModel(c)
